@@ -948,6 +948,85 @@ def slow_jobs(tier):
     return [cases[i::32] for i in range(32)]
 
 
+# ------------------------------------------------------------------ per-connection accept handlers in every documented form
+def handler_case(side, form, allow):
+    """A listener whose connections are screened one by one by an accept handler (server side: what
+    server_requested() returns for a client's remote forward; client side: forward_local_port(accept_handler=)).
+    Forms the type admits: a plain function returning bool, an `async def`, a plain callable that returns an awaitable
+    (a lambda around an async policy, a functools.partial), an object with an async __call__.  A denied
+    connection is closed without the destination ever being contacted; an allowed one is relayed."""
+    import functools
+    w = World('open_connection')
+    viol = []
+    consulted = []
+    try:
+        def decide(host, port):
+            consulted.append((host, port))
+            return allow
+
+        async def adecide(host, port):
+            consulted.append((host, port))
+            return allow
+
+        class Obj:
+            async def __call__(self, host, port):
+                consulted.append((host, port))
+                return allow
+        handler = {'sync': decide, 'async-def': adecide, 'lambda-awaitable': (lambda h, p: adecide(h, p)),
+                   'partial-async': functools.partial(adecide), 'async-call-object': Obj()}[form]
+        w.pair.handshake()
+        w.pair.server_owner = getattr(w, 'srv_owner', None)
+        loop, c = w.loop, w.pair.c
+        ends = []
+        w.run(loop.create_server(lambda: End('B', ends), 'b.example', 80))
+        if side == 'server':
+            w.srv_owner.server_requested = lambda lh, lp: handler
+            lst = w.run(c.forward_remote_port('127.0.0.1', 0, 'b.example', 80))
+        else:
+            lst = w.run(c.forward_local_port('127.0.0.1', 0, 'b.example', 80, accept_handler=handler))
+        a = End('A', [])
+        t = loop.create_task(loop.create_connection(lambda: a, '127.0.0.1', lst.get_port()))
+        loop.flush_all()
+        if t.done() and t.exception() is None:
+            a.t.write(b'ping')
+            loop.flush_all()
+        reached = bool(ends) and ends[0].data == b'ping'
+        if not consulted:
+            viol.append(('handler-not-consulted', 'the accept handler never ran'))
+        if allow and not reached:
+            viol.append(('permitted-forward-refused', 'handler allowed the connection, the destination got %r' % ([e.data for e in ends],)))
+        if not allow:
+            if ends:
+                viol.append(('forbidden-forward-served', 'handler denied the connection, the destination was contacted and got %r' % ([e.data for e in ends],)))
+            if not (a.lost or a.eof or (t.done() and t.exception() is not None)):
+                viol.append(('denied-connection-left-open', 'the denied connection was neither closed nor refused'))
+        c.close()
+        loop.flush_all()
+        if loop.unretrieved():
+            viol.append(('loop-exception', repr(loop.exc_log[0].get('exception') or loop.exc_log[0].get('message'))[:200]))
+    except Livelock as exc:
+        viol.append(('livelock', str(exc)))
+    finally:
+        w.close()
+    return viol
+
+
+def handler_worker(job):
+    acc = core.Acc()
+    for case in job:
+        viol = handler_case(*case)
+        acc.add(core.digest(('handler',) + tuple(case)), transitions=3,
+                sample={'accept_handler': dict(zip(('side', 'form', 'allows'), case))} if case == ('server', 'lambda-awaitable', False) else None)
+        for k, d in viol:
+            acc.violation('forward:%s:accept-handler:%s:%s' % (k, case[0], case[1]), '%s ; case=%r' % (d, case), {'kind': 'handler', 'case': list(case)})
+    return acc
+
+
+def handler_jobs():
+    return [[(side, form, allow)] for side in ('server', 'client') for form in ('sync', 'async-def', 'lambda-awaitable', 'partial-async', 'async-call-object')
+            for allow in (True, False)]
+
+
 def main(tier, seed):
     t0 = core.now()
     kinds = ['local', 'remote', 'local-path', 'remote-path', 'socks5', 'socks4', 'socks4a']
@@ -981,6 +1060,7 @@ def main(tier, seed):
     acc.merge(core.pmap(listen_worker, listen_jobs()))
     acc.merge(core.pmap(multi_worker, multi_jobs()))
     acc.merge(core.pmap(slow_worker, slow_jobs(tier)))
+    acc.merge(core.pmap(handler_worker, handler_jobs()))
     rule = ('forwarding kinds {local, remote, local path, remote path, SOCKS5, SOCKS4, SOCKS4a} x 9 scripted '
             'conversations (duplex writes incl. 300 bytes, half-close in each order, close by either end, EOF before '
             'any data); at every point the explorer may deliver any pending pipe, run the next application action '
@@ -1010,6 +1090,8 @@ def replay(rep):
         acc = perm_worker([(c[0], c[1], c[2], tuple(c[3]))])
         v = acc.violations
         print(json.dumps(v, indent=1, default=repr))
+    elif r['kind'] == 'handler':
+        acc = handler_worker([tuple(r['case'])])
     elif r['kind'] == 'slow':
         acc = slow_worker([tuple(r['case'])])
     elif r['kind'] == 'multi':
